@@ -39,6 +39,7 @@ type faultViolation struct {
 	K         int             `json:"k"`
 	Cache     int             `json:"cache"`
 	Flush     int             `json:"flush"`
+	Sync      bool            `json:"sync,omitempty"`
 	Step      int             `json:"step"`
 	Op        string          `json:"op"`
 	FailAt    int             `json:"fail_at"`
@@ -57,10 +58,10 @@ func opClass(name string) string {
 }
 
 // faultOne enumerates every storage-call fault position of one behaviour.
-func faultOne(b *model.Behaviour, pal *palette.Palette, palName string, palSeed int64, k, cache, flush int) (events map[string]*faultEvent, viols []faultViolation, positions int, kinds map[string]int) {
+func faultOne(b *model.Behaviour, pal *palette.Palette, palName string, palSeed int64, k, cache, flush int, sync bool) (events map[string]*faultEvent, viols []faultViolation, positions int, kinds map[string]int) {
 	events = map[string]*faultEvent{}
 	kinds = map[string]int{}
-	base := &fault.Runner{B: b, Pal: pal, Cache: cache, Flush: flush, Probe: true}
+	base := &fault.Runner{B: b, Pal: pal, Cache: cache, Flush: flush, Sync: sync, Probe: true}
 	base.Run(-1, -1)
 	ref := append([]fault.Op(nil), base.Ops...)
 	refKinds := append([]string(nil), base.FDB.Kinds...)
@@ -69,7 +70,7 @@ func faultOne(b *model.Behaviour, pal *palette.Palette, palName string, palSeed 
 		if failAt >= 0 && failAt < len(refKinds) {
 			ck = refKinds[failAt]
 		}
-		return faultViolation{Behaviour: json.RawMessage(b.Raw), Summary: b.Summary(), Palette: palName, PalSeed: palSeed, K: k, Cache: cache, Flush: flush,
+		return faultViolation{Behaviour: json.RawMessage(b.Raw), Summary: b.Summary(), Palette: palName, PalSeed: palSeed, K: k, Cache: cache, Flush: flush, Sync: sync,
 			Step: step, Op: op, FailAt: failAt, CallKind: ck, Msg: msg, Kind: "fault"}
 	}
 	for _, o := range ref {
@@ -82,7 +83,7 @@ func faultOne(b *model.Behaviour, pal *palette.Palette, palName string, palSeed 
 		for j := o.C0; j < o.C1; j++ {
 			positions++
 			kinds[refKinds[j]]++
-			r := &fault.Runner{B: b, Pal: pal, Cache: cache, Flush: flush, Probe: true}
+			r := &fault.Runner{B: b, Pal: pal, Cache: cache, Flush: flush, Sync: sync, Probe: true}
 			r.Run(j, oi+1)
 			if len(r.Ops) != oi+1 || !r.FDB.Fired {
 				// the run did not reach the same call: not deterministic, no verdict
@@ -176,6 +177,24 @@ func RunC17(id, tier string, seed int64) int {
 		return fail(2, "INCONCLUSIVE: "+err.Error())
 	}
 	transitions += gen
+	// a second family weighted towards pruning of versions that share subtrees with their successor
+	// (the orphan walk reads two trees side by side; a failed read there once destroyed the successor)
+	simP := sim
+	simP.K, simP.D, simP.Num = 5, 14, 60
+	simP.Classes = []string{"set", "set", "set", "setnew", "setnew", "setnew", "rmhit", "save", "save", "save", "deltook", "deltook", "deltook", "reopen"}
+	candP, genP, err := GenerateBehaviours(simP, seed+17)
+	if err != nil {
+		return fail(2, "INCONCLUSIVE: "+err.Error())
+	}
+	transitions += genP
+	var behsP []*model.Behaviour
+	for _, b := range candP {
+		if len(behsP) < tierNum(tier, 10, 120) && prunesSharedVersion(b) {
+			behsP = append(behsP, b)
+		}
+	}
+	ev.Coverage["prune_family"] = fmt.Sprintf("%d of %d generated behaviours delete a version of >= 2 keys that shares nodes with its successor; %d used", countIf(candP, prunesSharedVersion), len(candP), len(behsP))
+	behs = append(behs, behsP...)
 	rng := rand.New(rand.NewSource(seed))
 	type job struct {
 		b       *model.Behaviour
@@ -183,12 +202,13 @@ func RunC17(id, tier string, seed int64) int {
 		palName string
 		palSeed int64
 		cache   int
+		sync    bool
 	}
 	jobs := make([]job, len(behs))
 	for i, b := range behs {
 		name := palette.Names[rng.Intn(len(palette.Names))]
 		ps := rng.Int63()
-		jobs[i] = job{b, palette.New(name, sim.K, ps), name, ps, []int{0, 0, 100}[rng.Intn(3)]}
+		jobs[i] = job{b, palette.New(name, simP.K, ps), name, ps, []int{0, 0, 100}[rng.Intn(3)], rng.Intn(2) == 0}
 	}
 	type res struct {
 		events map[string]*faultEvent
@@ -206,7 +226,7 @@ func RunC17(id, tier string, seed int64) int {
 			defer wg.Done()
 			defer func() { <-sem }()
 			j := jobs[i]
-			e, v, p, k := faultOne(j.b, j.pal, j.palName, j.palSeed, sim.K, j.cache, 100000)
+			e, v, p, k := faultOne(j.b, j.pal, j.palName, j.palSeed, simP.K, j.cache, 100000, j.sync)
 			out[i] = res{e, v, p, k}
 		}(i)
 	}
@@ -261,7 +281,7 @@ func RunC17(id, tier string, seed int64) int {
 		}
 	}
 	// the same behaviours at a flush threshold that makes the batch flush inside operations (child processes)
-	sv, spos, sdied, err := smallFlushPass(id, seed, behs, sim.K)
+	sv, spos, sdied, err := smallFlushPass(id, seed, behs, simP.K)
 	if err != nil {
 		return fail(2, "INCONCLUSIVE: "+err.Error())
 	}
@@ -307,7 +327,7 @@ func RunC17(id, tier string, seed int64) int {
 			}
 			continue
 		}
-		_, wv, wp, _ := faultOne(wb, palette.New(w.Palette, w.K, w.PalSeed), w.Palette, w.PalSeed, w.K, w.Cache, w.Flush)
+		_, wv, wp, _ := faultOne(wb, palette.New(w.Palette, w.K, w.PalSeed), w.Palette, w.PalSeed, w.K, w.Cache, w.Flush, w.Sync)
 		positions += wp
 		for _, x := range wv {
 			x.Property = id
@@ -371,6 +391,37 @@ func RunC17(id, tier string, seed int64) int {
 	return 0
 }
 
+// prunesSharedVersion: some successful DeleteVersionsTo removes a version n whose tree has at least
+// two keys and differs from the tree of n+1 without being disjoint from it (the orphan walk then
+// reads both trees side by side).
+func prunesSharedVersion(b *model.Behaviour) bool {
+	trees := map[int64]*model.Tree{}
+	for i, s := range b.Steps {
+		if (s.Op == "save" || s.Op == "savecs") && !s.Ret.Err {
+			trees[s.Ret.Ver] = s.Ret.Tree
+		}
+		if s.Op == "delto" && !s.Ret.Err && i > 0 && s.First > b.Steps[i-1].First {
+			for n := b.Steps[i-1].First; n <= s.Args.N; n++ {
+				a, c := trees[n], trees[n+1]
+				if a != nil && c != nil && a.Sz >= 2 && c.Sz >= 2 && c.Ver == n+1 {
+					return true
+				}
+			}
+		}
+	}
+	return false
+}
+
+func countIf(bs []*model.Behaviour, f func(*model.Behaviour) bool) int {
+	n := 0
+	for _, b := range bs {
+		if f(b) {
+			n++
+		}
+	}
+	return n
+}
+
 // FaultChild is the entry point of the child process used for the small-flush-threshold pass: a failing
 // auto-flush can kill the whole process (a Go runtime fatal error cannot be recovered), so that pass
 // runs outside the checking process. It prints one JSON line with the violations it saw.
@@ -396,7 +447,7 @@ func FaultChild(jobFile string) int {
 		return 2
 	}
 	noDurable = true
-	_, viols, pos, _ := faultOne(b, palette.New(j.Palette, j.K, j.PalSeed), j.Palette, j.PalSeed, j.K, 0, j.Flush)
+	_, viols, pos, _ := faultOne(b, palette.New(j.Palette, j.K, j.PalSeed), j.Palette, j.PalSeed, j.K, 0, j.Flush, false)
 	out, _ := json.Marshal(map[string]interface{}{"viols": viols, "positions": pos})
 	fmt.Println("CHILDRESULT " + string(out))
 	return 0
@@ -531,7 +582,7 @@ func ReplayFault(path string) (bool, int) {
 		return true, 0
 	}
 	pal := palette.New(v.Palette, v.K, v.PalSeed)
-	_, viols, _, _ := faultOne(b, pal, v.Palette, v.PalSeed, v.K, v.Cache, v.Flush)
+	_, viols, _, _ := faultOne(b, pal, v.Palette, v.PalSeed, v.K, v.Cache, v.Flush, v.Sync)
 	for _, x := range viols {
 		if x.Step == v.Step && x.Op == v.Op && x.FailAt == v.FailAt {
 			fmt.Printf("step %d %s, failing call #%d (%s): %s\n", x.Step, x.Op, x.FailAt, x.CallKind, x.Msg)
